@@ -148,3 +148,128 @@ func init() {
 		return zero(pkg.Type("Time").Object().Type())
 	}
 }
+
+const natsPkg = "github.com/nats-io/nats.go"
+
+// NATS client library and timers for the adapter harness (C18). The library
+// cannot run without a server, so these stubs stand for its documented
+// behaviour; counterexamples of that harness are replayed in the engine only.
+func init() {
+	subField := func(fr *frame, name string) int {
+		T := fr.i.prog.ImportedPackage(natsPkg).Type("Subscription").Object().Type().Underlying().(*types.Struct)
+		for k := 0; k < T.NumFields(); k++ {
+			if T.Field(k).Name() == name {
+				return k
+			}
+		}
+		panic(engineError("nats.Subscription field " + name))
+	}
+	for k, v := range map[string]externalFn{
+		natsPkg + ".NewInbox": func(fr *frame, a []value) value {
+			n, _ := fr.i.side["inbox"].(int)
+			n++
+			fr.i.side["inbox"] = n
+			return fmt.Sprintf("_INBOX.%022d", n) // 29 bytes like the library's
+		},
+		"(*" + natsPkg + ".Conn).ChanSubscribe": func(fr *frame, a []value) value {
+			if e, ok := fr.i.side["nats-subscribe-error"]; ok && e != nil {
+				return tuple{(*value)(nil), e}
+			}
+			T := fr.i.prog.ImportedPackage(natsPkg).Type("Subscription").Object().Type()
+			var cell value = zero(T)
+			cell.(structure)[subField(fr, "Subject")] = a[1]
+			p := &cell
+			lst, _ := fr.i.side["nats-subs"].([]value)
+			fr.i.side["nats-subs"] = append(lst, p)
+			return tuple{p, nilError}
+		},
+		"(*" + natsPkg + ".Conn).PublishRequest": func(fr *frame, a []value) value {
+			if e, ok := fr.i.side["nats-publish-error"]; ok && e != nil {
+				return e
+			}
+			lst, _ := fr.i.side["nats-published"].([]value)
+			fr.i.side["nats-published"] = append(lst, a[1])
+			return nilError
+		},
+		"(*" + natsPkg + ".Conn).IsClosed": func(fr *frame, a []value) value { return false },
+		"(*" + natsPkg + ".Conn).Close":    func(fr *frame, a []value) value { return nil },
+		"(*" + natsPkg + ".Subscription).Unsubscribe": func(fr *frame, a []value) value {
+			key := fmt.Sprintf("nats-unsub:%p", a[0].(*value))
+			n, _ := fr.i.side[key].(int)
+			fr.i.side[key] = n + 1
+			return nilError
+		},
+		zz + "NatsSubs": func(fr *frame, a []value) value {
+			lst, _ := fr.i.side["nats-subs"].([]value)
+			out := make([]value, len(lst))
+			for k, p := range lst {
+				out[k] = iface{t: types.NewPointer(fr.i.prog.ImportedPackage(natsPkg).Type("Subscription").Object().Type()), v: p}
+			}
+			return out
+		},
+		zz + "NatsUnsubscribed": func(fr *frame, a []value) value {
+			p, _ := a[0].(iface).v.(*value)
+			n, _ := fr.i.side[fmt.Sprintf("nats-unsub:%p", p)].(int)
+			return n
+		},
+		zz + "NatsFailPublish": func(fr *frame, a []value) value {
+			if a[0].(bool) {
+				pkg := fr.i.prog.ImportedPackage("errors")
+				fr.i.side["nats-publish-error"] = call(fr.i, fr, token.NoPos, pkg.Func("New"), []value{"nats: maximum payload exceeded"})
+			} else {
+				fr.i.side["nats-publish-error"] = nil
+			}
+			return nil
+		},
+
+		// timers
+		"time.AfterFunc": func(fr *frame, a []value) value {
+			T := fr.i.prog.ImportedPackage("time").Type("Timer").Object().Type()
+			var cell value = zero(T)
+			p := &cell
+			fr.i.side[fmt.Sprintf("timer:%p", p)] = &vtimer{fn: a[1], armed: true}
+			lst, _ := fr.i.side["timers"].([]value)
+			fr.i.side["timers"] = append(lst, p)
+			return p
+		},
+		"(*time.Timer).Stop": func(fr *frame, a []value) value {
+			t, ok := fr.i.side[fmt.Sprintf("timer:%p", a[0].(*value))].(*vtimer)
+			if !ok {
+				return false
+			}
+			was := t.armed
+			t.armed = false
+			return was
+		},
+		zz + "ArmedTimers": func(fr *frame, a []value) value {
+			lst, _ := fr.i.side["timers"].([]value)
+			n := 0
+			for _, p := range lst {
+				if t := fr.i.side[fmt.Sprintf("timer:%p", p.(*value))].(*vtimer); t.armed {
+					n++
+				}
+			}
+			return n
+		},
+		zz + "FireTimer": func(fr *frame, a []value) value {
+			// fires the k-th armed timer
+			k := int(asInt64(a[0]))
+			lst, _ := fr.i.side["timers"].([]value)
+			for _, p := range lst {
+				t := fr.i.side[fmt.Sprintf("timer:%p", p.(*value))].(*vtimer)
+				if !t.armed {
+					continue
+				}
+				if k == 0 {
+					t.armed = false
+					call(fr.i, fr, token.NoPos, t.fn, nil)
+					return true
+				}
+				k--
+			}
+			return false
+		},
+	} {
+		externals[k] = v
+	}
+}
